@@ -1,0 +1,34 @@
+//go:build verif
+
+package util
+
+// Verification hooks (build tag "verif" only): read-only copies of the
+// package-level tables, so that an external harness can compare them with
+// what a source-level extractor reads from the same files.
+
+// VerifTLDMap returns a copy of tldMap.
+func VerifTLDMap() map[string]GTLDPeriod {
+	out := make(map[string]GTLDPeriod, len(tldMap))
+	for k, v := range tldMap {
+		out[k] = v
+	}
+	return out
+}
+
+// VerifReservedNetworks returns the CIDR strings of reservedNetworks.
+func VerifReservedNetworks() []string {
+	out := make([]string, 0, len(reservedNetworks))
+	for _, n := range reservedNetworks {
+		out = append(out, n.String())
+	}
+	return out
+}
+
+// VerifPrimes returns the values of bigIntPrimes.
+func VerifPrimes() []int64 {
+	out := make([]int64, 0, len(bigIntPrimes))
+	for _, p := range bigIntPrimes {
+		out = append(out, p.Int64())
+	}
+	return out
+}
